@@ -103,7 +103,7 @@ def direct(p1, p2, m1, m2, box, selfo, k):
 
 def make_cases(rng, thorough):
     cases = []
-    for it in range(40 if thorough else 6):
+    for it in range(120 if thorough else 6):
         selfo = bool(it % 2 == 0)
         F = int(rng.integers(1, 4))
         n1 = int(rng.choice([2, 3, 5, 8, 13, 24, 37]))
